@@ -131,12 +131,43 @@ def configs(r, tier):
     return out
 
 
+def dirgrow_program(kind, n):
+    """deterministic: push a directory across several cluster boundaries with one primitive, remounting after every call"""
+    ops = [["makedir", "/grow"]]
+    for i in range(n):
+        nm = "/grow/entry number %03d with a long name.txt" % i
+        if kind == "create":
+            ops.append(["create", nm])
+        elif kind == "touch":
+            ops.append(["touch", nm])
+        elif kind == "makedir":
+            ops.append(["makedir", nm])
+        else:
+            ops.append(["writebytes", nm, i + 1, 10])
+    for i in range(0, n, 2):
+        nm = "/grow/entry number %03d with a long name.txt" % i
+        ops.append(["removedir", nm] if kind == "makedir" else ["remove", nm])
+    ops.append(["listdir", "/grow"])
+    return ops
+
+
 def run(tier):
     res = Result("ns")
     r = rng("ns")
     nprog = 90 if tier == "quick" else 1500
     cfgs = configs(r, tier)
     seen = {}
+    # directory growth across cluster boundaries, one primitive at a time
+    for ci, cfg in enumerate(cfgs[:3] + cfgs[6:7]):
+        for kind in ("create", "touch", "makedir", "writebytes"):
+            cfg = dict(cfg, seed=1000 + ci)
+            ops = dirgrow_program(kind, 14 if tier == "quick" else 40)
+            findings, stats = histcheck.check_history(cfg, ops, remount_every=1)
+            res.case("dirgrow:cfg%d:%s" % (ci, kind))
+            res.count("programs")
+            res.count("ops", stats["ops"])
+            if findings:
+                histcheck.report(res, cfg, ops, findings, "ns", shrink_budget=30, seen=seen)
     for i in range(nprog):
         cfg = dict(cfgs[i % len(cfgs)])
         cfg["seed"] = i
